@@ -332,7 +332,7 @@ fn compute_used_produced(
             let f_pr_cr_j: Vec<_> = prod_cr_j_t
                 .iter()
                 .zip(E_pr_cr_t.iter())
-                .map(|(pr_j, pr_all)| if *pr_all > 1e-3 { pr_j / pr_all } else { 0.0 })
+                .map(|(pr_j, pr_all)| if *pr_all > 0.0 { pr_j / pr_all } else { 0.0 })
                 .collect();
             E_pr_cr_j_used_EPus_t.insert(*source, vecvecmul(&E_pr_cr_used_EPus_t, &f_pr_cr_j));
         }
